@@ -120,6 +120,24 @@ def ev(node, env, hooks=None):
             except (ValueError, TypeError, IndexError) as e:
                 raise Undecidable('%s() fails: %s' % (node.func.id, type(e).__name__))
             return tuple(r) if node.func.id in ('reversed', 'enumerate', 'zip') else r
+        if isinstance(node.func, ast.Attribute) and isinstance(node.func.value, ast.Name) and node.func.value.id == 're' \
+                and node.func.attr in ('match', 'search', 'fullmatch') and 're' not in env:
+            import re as _re
+            args = [E(a) for a in node.args]
+            if len(args) != 2 or not all(isinstance(a, str) for a in args):
+                raise Undecidable('re.%s arguments' % node.func.attr)
+            return getattr(_re, node.func.attr)(*args)
+        if isinstance(node.func, ast.Attribute) and node.func.attr in ('group', 'groups'):
+            obj = E(node.func.value)
+            import re as _re
+            if obj is None:
+                raise Undecidable('pattern does not match: None.%s' % node.func.attr)
+            if isinstance(obj, _re.Match):
+                return getattr(obj, node.func.attr)(*[E(a) for a in node.args])
+        if isinstance(node.func, ast.Attribute) and node.func.attr in ('startswith', 'endswith', 'isdigit'):
+            obj = E(node.func.value)
+            if isinstance(obj, str):
+                return getattr(obj, node.func.attr)(*[E(a) for a in node.args])
         if isinstance(node.func, ast.Attribute) and node.func.attr in SAFE_METHODS:
             obj = E(node.func.value)
             if not isinstance(obj, (str, tuple, list, dict)):
